@@ -12,8 +12,9 @@ import fsharness as H
 from props import _stateful as S
 from props import _wrapexact as W
 from props import _osexact as X
+from props import _handles as HD
 
-EXTRA_PROOF_MODULES = ("FsProofs.MemRefines", "FsProofs.WrapRefines", "FsProofs.OsRefines")
+EXTRA_PROOF_MODULES = ("FsProofs.MemRefines", "FsProofs.WrapRefines", "FsProofs.OsRefines", "FsProofs.HandleLaws")
 
 QUERY_ON_INVALID_OK = {"exists", "isdir", "isfile"}
 
@@ -128,6 +129,9 @@ def run(rep, tier, seed, deep=False):
         # table) and FsModel.OsSub: exact error class, exact tree up to entry order; the POSIX model
         # itself is compared with the kernel, the extracted table with the live one
         X.run_os_exact(rep, steps, drv)
+        # file objects kept open ACROSS filesystem calls, several handles on one file, files removed / moved /
+        # overwritten while open: whole histories against FsModel.Handles (FsProofs/HandleLaws.lean)
+        HD.check_handles(rep, drv, vlib.rng_for(seed, "c01-handles"), tier)
         rep.sample({"backend": steps[0].kind, "op": H.op_json(steps[0].op), "impl": list(steps[0].impl[:2])})
         for s in steps[1::max(1, len(steps) // 5)][:5]:
             rep.sample({"backend": s.kind, "pre": [e[:2] for e in s.pre][:6], "op": H.op_json(s.op), "impl": list(s.impl[:2])})
@@ -144,6 +148,8 @@ def replay(rep, case):
         return 1 if rep.violations else 0
     if X.is_mine(case):
         return X.replay(rep, case)
+    if HD.is_mine(case):
+        return HD.replay(rep, case)
     kind, pre, op = H.case_to_step(case["case"])
     op = H.fix_op_bytes(op)
     b = H.build_state(kind, pre)
